@@ -38,6 +38,7 @@ type convEdit struct {
 	Body     *int  `json:"body,omitempty"`
 	Uncache  bool  `json:"uncache,omitempty"`
 	Unavail  bool  `json:"unavail,omitempty"`
+	StripOwners bool `json:"strip_owners,omitempty"`
 }
 
 type convDrift struct {
@@ -83,6 +84,9 @@ func applyEdits(s *Store, edits []convEdit, targets []aOID) {
 			l := u.GetLabels()
 			delete(l, constants.DynamicCacheLabel)
 			u.SetLabels(l)
+		}
+		if e.StripOwners {
+			(&unstructured.Unstructured{Object: m}).SetOwnerReferences(nil)
 		}
 		if e.Unavail {
 			_ = unstructured.SetNestedSlice(m, []any{map[string]any{"type": "Available", "status": "False"}}, "status", "conditions")
